@@ -12,6 +12,7 @@ Case lines (numbers: decimal integers or `h` + 16 hex digits of an f64 bit patte
     pos <eps> cx cy r px py           Circle::position
     con <eps> <L> px py               Line::contains
     ln <eps> <L>                      the constructed line itself
+    pt <eps> ax ay bx by k            the point algebra: a + b, a - b, a * k, a / k, a.slen(), a.len(), a.dp(b), a.cp(b)
 
 `M` = result of the `Float` instance of the model: kind + number of points (with the case prefix `bits`: kind +
 coordinates as bit patterns, diagnostics only);
@@ -191,6 +192,32 @@ def handleToks (full : Bool) (line : String) : List String → String
         answer3 raw view (if l.dom then "unit on" else "any")
       | _ => badLine line
     | none => badLine line
+  | "pt" :: e :: rest =>
+    match parseNum? e, parseNums? rest with
+    | some eps, some [ax, ay, bx, by', k] =>
+      let G := floatGeo eps
+      let a : Point Float := ⟨ax, ay⟩
+      let b : Point Float := ⟨bx, by'⟩
+      let s := padd G a b
+      let d := psub G a b
+      let m := pmul G a k
+      let q := pdiv G a k
+      let sl := slen G a
+      let ln := len G a
+      let dpv := dp G a b
+      let cpv := cp G a b
+      let raw := if full then " ".intercalate ("pt" :: [s.x, s.y, d.x, d.y, m.x, m.y, q.x, q.y, sl, ln, dpv, cpv].map showNum) else "pt"
+      -- view: every result within 4e-15 (relative) of the exact value, decided over the rationals on the model's own floats
+      let view :=
+        match qPointOf? s, qPointOf? d, qPointOf? m, qPointOf? q, Q.ofFloat? sl, Q.ofFloat? ln, Q.ofFloat? dpv, Q.ofFloat? cpv with
+        | some s, some d, some m, some q, some sl, some ln, some dpv, some cpv =>
+          okOff (ptOk ⟨qOf ax, qOf ay⟩ ⟨qOf bx, qOf by'⟩ (qOf k) ⟨s, d, m, q, sl, ln, dpv, cpv⟩)
+        | _, _, _, _, _, _, _, _ => "nan"
+      -- domain: coordinates 0 or of magnitude 1e-6 … 1e3 (no underflow anywhere), factor of magnitude 1e-3 … 1e3
+      let magOk (f : Float) : Bool := finite f && ((qOf f).isZero || ((Q.tenPowNeg 6).le (qOf f).abs && (qOf f).abs.le thousand))
+      let dom := magOk ax && magOk ay && magOk bx && magOk by' && finite k && (Q.tenPowNeg 3).le (qOf k).abs && (qOf k).abs.le thousand
+      answer3 raw view (if dom then "ok" else "any")
+    | _, _ => badLine line
   | _ => badLine line
 
 /-- a leading `bits` token asks for full bit patterns in the raw column (diagnostic sample only) -/
